@@ -225,6 +225,45 @@ class _SplitAnd(ast.NodeTransformer):
         return node
 
 
+class _SwapAssigns(ast.NodeTransformer):
+    """Swap two adjacent assignments `a = e1; b = e2` to distinct local names when both right-hand
+    sides are call-free and neither reads the other's target."""
+
+    @staticmethod
+    def _simple(s):
+        if not (isinstance(s, ast.Assign) and len(s.targets) == 1 and
+                isinstance(s.targets[0], ast.Name)):
+            return None
+        for n in ast.walk(s.value):
+            if isinstance(n, (ast.Call, ast.Await, ast.Yield, ast.YieldFrom, ast.NamedExpr,
+                              ast.Lambda, ast.ListComp, ast.SetComp, ast.DictComp,
+                              ast.GeneratorExp)):
+                return None
+        reads = set(n.id for n in ast.walk(s.value) if isinstance(n, ast.Name))
+        return s.targets[0].id, reads
+
+    def _block(self, stmts):
+        out = list(stmts)
+        i = 0
+        while i + 1 < len(out):
+            a, b = self._simple(out[i]), self._simple(out[i + 1])
+            if a and b and a[0] != b[0] and a[0] not in b[1] and b[0] not in a[1]:
+                out[i], out[i + 1] = out[i + 1], out[i]
+                i += 2
+            else:
+                i += 1
+        return out
+
+    def generic_visit(self, node):
+        super().generic_visit(node)
+        for fld in ('body', 'orelse', 'finalbody'):
+            v = getattr(node, fld, None)
+            if isinstance(v, list) and v and isinstance(v[0], ast.stmt) and \
+                    not isinstance(node, (ast.Module, ast.ClassDef)):
+                setattr(node, fld, self._block(v))
+        return node
+
+
 class _MergeIfs(ast.NodeTransformer):
     """if a:\n    if b: body   ->   if a and b: body          (no else branches)"""
 
@@ -301,6 +340,8 @@ def neutral_variants(text):
         out.append(('split-and-conditions', ast.unparse(t) + '\n'))
         t = ast.fix_missing_locations(_MergeIfs().visit(ast.parse(text)))
         out.append(('merge-nested-ifs', ast.unparse(t) + '\n'))
+        t = ast.fix_missing_locations(_SwapAssigns().visit(ast.parse(text)))
+        out.append(('swap-independent-assignments', ast.unparse(t) + '\n'))
     except Exception as e:   # pragma: no cover
         out.append(('rewrite-error', None))
     return out
